@@ -71,15 +71,13 @@ pub fn classes() -> &'static Vec<LexClass> {
                     if ip.is_empty() && (fr.is_empty() || fr == ".") {
                         continue; // not a number
                     }
-                    if fr == "." && !ex.is_empty() {
-                        continue; // `1.e3`: digits are required between `.` and the exponent in OpenQASM 3
-                    }
+
                     let f = format!("{ip}{fr}{ex}");
                     v.push(lc(&format!("float:{f}"), &f, "FLOAT_NUMBER"));
                 }
             }
         }
-        for (num, kind) in [("10", "INT_NUMBER"), ("1.5", "FLOAT_NUMBER")] {
+        for (num, kind) in [("10", "INT_NUMBER"), ("1.5", "FLOAT_NUMBER"), ("1.", "FLOAT_NUMBER"), ("12_3.", "FLOAT_NUMBER"), (".5", "FLOAT_NUMBER"), ("1e3", "FLOAT_NUMBER")] {
             for u in UNITS.iter().chain(["im"].iter()) {
                 let text = format!("{num}{u}");
                 v.push(LexClass {
